@@ -8,8 +8,8 @@ import (
 	"fmt"
 	"hash/fnv"
 	"os"
-	"strings"
 	"sort"
+	"strings"
 	"sync"
 )
 
